@@ -51,11 +51,16 @@ def choose(n: int, label: str = "c") -> int:
         with ResumedTracing():
             return choose(n, label)
     c = proxy_for_type(int, "%s%d" % (label, len(_CHOICES)))
-    idx = n - 1
-    for k in range(n - 1):
-        if c == k:
-            idx = k
-            break
+    # binary search on an unconstrained int: values below 0 mean 0, values >= n mean n-1 (no infeasible path),
+    # about log2(n) solver decisions per choice
+    lo, hi = 0, n
+    while hi - lo > 1:
+        mid = (lo + hi) // 2
+        if c < mid:
+            hi = mid
+        else:
+            lo = mid
+    idx = lo
     _CHOICES.append((label, idx))
     return idx
 
